@@ -3,7 +3,7 @@
 (* Family) and, for each program, every sequence of start / stop / restart / run(ev) calls until the reachable    *)
 (* states are exhausted (guard/handler scripts are cyclic, so the state space of one program is finite).           *)
 EXTENDS Hfsm, SequencesExt
-CONSTANT Family      \* "flat2q" | "flat2" | "flat3" | "dupq" | "dup" | "term0q" | "term0" | "simmix" | "nestq" | "nest" | "reent" | "reent_enter"
+CONSTANT Family      \* "flat2q" | "flat2" | "flat3" | "dupq" | "dup" | "term0q" | "term0" | "init0q" | "init0" | "simmix" | "nestq" | "nest" | "reent" | "reent_enter"
 CONSTANT MaxDepth    \* 0 = until exhaustion, otherwise maximal number of calls
 
 VARIABLE depth
@@ -76,6 +76,10 @@ Nest(Mn(_, _), Lf, Ps, Ts) == { Nest3(a1, a2, b1, b2, c1, p1, p2, t, <<>>)
 MQ1(s, o) == CHOOSE x \in MenuQ(s, o) : TRUE
 Term0Q == { Nest3(MQ1(1, 2), MQ1(2, 1), MQ1(1, 2), MQ1(2, 1), CHOOSE x \in Leaf : TRUE, p1, p2, RichTerm, <<>>) : p1 \in {1, 2}, p2 \in {1, 2} }
 
+(* the user-defined state 0 as INITIAL state (the first declared state is the initial one, whatever its id): of the    *)
+(* innermost machine, or of both nested machines                                                                       *)
+Init0(T) == {[p EXCEPT !.ms[3].init = 0] : p \in T} \cup {[p EXCEPT !.ms[2].init = 0, !.ms[3].init = 0] : p \in T}
+
 (* ---- re-entrant attempts: one fixed nested program, every callback kind tries every call on its own machine ---- *)
 ReBase(re) == Nest3([rs |-> <<R(1, 2, 1, 1), R(2, 0, 0, 1)>>, hd |-> <<Hd(2, <<-1, 2>>)>>],
                     [rs |-> <<R(0, 1, 0, 1)>>, hd |-> <<>>],
@@ -107,7 +111,10 @@ Programs ==
     [] Family = "nest"  -> Nest(Menu, Leaf, {1, 2}, {<<>>, PlainTerm})
     [] Family = "term0q" -> Term0Q
     [] Family = "term0" -> Nest(MenuQ, Leaf1, {1, 2}, {RichTerm})
+    [] Family = "init0q" -> {[p EXCEPT !.ms[3].init = 0] : p \in Term0Q}
+    [] Family = "init0" -> Init0(Term0Q)
     [] Family = "simmix" -> Nest(MenuQ, Leaf1, {1, 2}, {PlainTerm, RichTerm}) \cup Flat(FlatRouteChoicesQ, 2, DupHandlers, Term0Flat)
+                            \cup Init0(Term0Q)
     [] Family = "reent" -> Reent(ReSites)
     [] Family = "reent_enter" -> Reent({x \in ReSites : x.k = "E"})
 
